@@ -213,6 +213,22 @@ def leafwise(f, a, b):
     return f(a, b)
 
 
+def ite_simplify(e, known_true=frozenset(), known_false=frozenset()):
+    """resolve nested if-then-else nodes whose condition is already decided by an enclosing one"""
+    if not isinstance(e, sp.Basic) or not e.args:
+        return e
+    if isinstance(e, Ite):
+        c, a, b = e.args
+        if c in known_true or sp.Not(c) in known_false:
+            return ite_simplify(a, known_true, known_false)
+        if c in known_false or sp.Not(c) in known_true:
+            return ite_simplify(b, known_true, known_false)
+        return Ite(c, ite_simplify(a, known_true | {c}, known_false), ite_simplify(b, known_true, known_false | {c}))
+    if not e.has(Ite):
+        return e
+    return e.func(*[ite_simplify(x, known_true, known_false) for x in e.args])
+
+
 def _pow(a, b):
     a, b = num(a), num(b)
     return sp.Pow(a, b)
@@ -458,12 +474,14 @@ class S:
 
 class Axis:
     _count = 0
+    REG: dict = {}
 
     def __init__(self, name, n=None):
         self.name = name
         self.n = n if n is not None else sp.Symbol("n_" + name, integer=True, nonnegative=True)
         self.syms: set = set()
         self.tag = sp.Symbol("ax_" + name)  # identifies the axis inside Sigma terms
+        Axis.REG[self.tag] = self
 
     def sym(self, name, **assump) -> "A":
         """a per-event input array: generic element = fresh symbol `name`"""
@@ -519,6 +537,16 @@ def sigma(ax: Axis, body: sp.Expr) -> sp.Expr:
         if out:
             return sp.Mul(*out) * sigma(ax, sp.Mul(*inn))
     return SigmaF(ax.tag, body)
+
+
+def renorm_sigma(e):
+    """re-apply the linearity normalisation after a substitution inside Sigma bodies"""
+    if not isinstance(e, sp.Basic) or not e.args:
+        return e
+    args = [renorm_sigma(a) for a in e.args]
+    if isinstance(e, sp.core.function.AppliedUndef) and e.func == SigmaF and args[0] in Axis.REG:
+        return sigma(Axis.REG[args[0]], sp.expand(args[1]) if isinstance(args[1], sp.Mul) and any(isinstance(x, sp.Add) for x in args[1].args) else args[1])
+    return e.func(*args)
 
 
 class Shape(tuple):
@@ -822,6 +850,13 @@ class A:
 
     # -- indexing
     def __getitem__(self, idx):
+        if isinstance(idx, (int, np.integer)) and self.ndim == 1 and self.dom is sp.true:
+            ix = sp.Symbol("idx_" + self.axes[0].name, integer=True, nonnegative=True)
+            others = (self.e.free_symbols & self.axes[0].syms) - {ix}
+            if not others:
+                k = sp.Integer(int(idx)) if idx >= 0 else self.axes[0].n + int(idx)
+                return S(self.e.xreplace({ix: k}))
+            raise Unsupported("integer index into an array whose elements are not an explicit function of the index")
         if isinstance(idx, A):
             if not idx.isbool():
                 raise Unsupported("integer-array indexing of a symbolic array")
